@@ -9,6 +9,7 @@ WIDER domain (trigger words, non-suffix defaults for ReST, unusual types) x form
 
 import ast
 import json
+import re
 import os
 
 from cddvc import e1, extract
@@ -128,7 +129,8 @@ def contract(cell, ir):
     field, what = d
     docs = " ".join(p.get("doc", "") for p in ir["params"].values())
     doc_class = ("whether" if "whether" in docs else "number" if "number of" in docs else "listof" if "list of" in docs else "embedded-default" if "Defaults to" in docs
-                 else "ellipsis" if "..." in docs else "pk" if "[PK]" in docs else "plain")
+                 else "ellipsis" if "..." in docs else "pk" if "[PK]" in docs
+                 else "paren-default-inline" if re.search(r"\(default[^)]*\)\s*[^\s.]", docs) else "plain")
     src = {}
     if field in ("typ", "doc", "default"):
         src = ir["params"].get(what.split(".")[0], {})
